@@ -80,8 +80,9 @@ def load(name, read_model=None):
 
 # ----------------------------------------------------------------------------- perturbations
 
-def _rebuild(structure, fn_xyz=None, keep_res=None, keep_atom=None, model=None):
-    """New Structure3D from the public dataclasses; coordinates mapped by fn_xyz(np.array n x 3)."""
+def _rebuild(structure, fn_xyz=None, keep_res=None, keep_atom=None, model=None, relabel=None):
+    """New Structure3D from the public dataclasses; coordinates mapped by fn_xyz(np.array n x 3);
+    relabel(ri, r) -> (label, auth) gives a residue (and its atoms) another identity."""
     from rnapolis.tertiary import Atom, Residue3D, Structure3D
     residues = []
     allxyz = np.array([[a.x, a.y, a.z] for r in structure.residues for a in r.atoms], dtype=float).reshape(-1, 3)
@@ -95,15 +96,47 @@ def _rebuild(structure, fn_xyz=None, keep_res=None, keep_atom=None, model=None):
             k += 1
             if keep_atom is not None and not keep_atom(ri, ai, a):
                 continue
-            atoms.append(Atom(a.entity_id, a.label, a.auth, a.model if model is None else model, a.name, x, y, z,
+            lab, au = (a.label, a.auth) if relabel is None else relabel(ri, r)
+            atoms.append(Atom(a.entity_id, lab, au, a.model if model is None else model, a.name, x, y, z,
                               a.occupancy))
         if keep_res is not None and not keep_res(ri, r):
             continue
         if not atoms:
             continue
-        residues.append(Residue3D(r.label, r.auth, r.model if model is None else model, r.one_letter_name,
+        lab, au = (r.label, r.auth) if relabel is None else relabel(ri, r)
+        residues.append(Residue3D(lab, au, r.model if model is None else model, r.one_letter_name,
                                   tuple(atoms)))
     return Structure3D(residues)
+
+
+PHOSPHATE_GROUP = ("P", "OP1", "OP2", "OP3", "O1P", "O2P", "O3P")
+
+
+def _is_backbone(name):
+    """sugar-phosphate backbone atom (everything primed except C1', and the phosphate group)"""
+    return name in PHOSPHATE_GROUP or (name.endswith("'") and name != "C1'")
+
+
+def code_view(recipe, structure):
+    """The Structure3D handed to the code under test.  It is the measured structure itself except for
+    variant "splitres", where the records of some residues are not contiguous: their phosphate group
+    arrives as a second Residue3D with the same identity at the end of the list (this is what the reader
+    produces for a file that lists a residue's atoms in two blocks).  Measurement and indexing use the
+    merged view - a residue is what its identity says."""
+    if recipe["variant"] != "splitres":
+        return structure
+    from rnapolis.tertiary import Residue3D, Structure3D
+    rng = random.Random(f"{lib.seed()}|{recipe['file']}|splitres|{recipe.get('seed', 0)}")
+    main, tail = [], []
+    for r in structure.residues:
+        ph = tuple(a for a in r.atoms if a.name in PHOSPHATE_GROUP)
+        rest = tuple(a for a in r.atoms if a.name not in PHOSPHATE_GROUP)
+        if ph and rest and rng.random() < recipe.get("param", 0.3):
+            main.append(Residue3D(r.label, r.auth, r.model, r.one_letter_name, rest))
+            tail.append(Residue3D(r.label, r.auth, r.model, r.one_letter_name, ph))
+        else:
+            main.append(r)
+    return Structure3D(main + tail)
 
 
 def _rotation(rng):
@@ -133,6 +166,27 @@ def build(recipe):
     if v == "thinatoms":
         drop = {(ri, ai) for ri, r in enumerate(base.residues) for ai in range(len(r.atoms)) if rng.random() < p}
         return _rebuild(base, keep_atom=lambda ri, ai, a: (ri, ai) not in drop), recipe.get("ann_model")
+    if v == "splitres":
+        return base, recipe.get("ann_model")      # the code sees code_view(): some residues in two blocks
+    if v == "baseonly":
+        # some residues lose their whole sugar-phosphate backbone (base heavy atoms and C1' stay)
+        drop = {i for i in range(len(base.residues)) if rng.random() < p}
+        return _rebuild(base, keep_atom=lambda ri, ai, a: not (ri in drop and _is_backbone(a.name))), \
+            recipe.get("ann_model")
+    if v == "icode":
+        # order-preserving renumbering with insertion codes: residue k+1 becomes k^A for some k
+        from rnapolis.common import ResidueAuth
+        rs, ren, k = base.residues, {}, 0
+        while k + 1 < len(rs):
+            a, b = rs[k], rs[k + 1]
+            if (a.auth is not None and b.auth is not None and a.auth.chain == b.auth.chain and not a.auth.icode
+                    and not b.auth.icode and b.auth.number == a.auth.number + 1 and a.model == b.model
+                    and rng.random() < p):
+                ren[k + 1] = ResidueAuth(b.auth.chain, a.auth.number, "A", b.auth.name)
+                k += 2
+            else:
+                k += 1
+        return _rebuild(base, relabel=lambda ri, r: (r.label, ren.get(ri, r.auth))), recipe.get("ann_model")
     if v == "twomodel":
         # the structure as model 1 plus a jittered, shifted copy as model 2; model p is analysed
         from rnapolis.tertiary import Structure3D
@@ -403,6 +457,9 @@ def recipes(tier):
             out.append({"file": f, "variant": "jitter", "param": 0.3, "seed": 1})
             out.append({"file": f, "variant": "thinres", "param": 0.2, "seed": 1})
             out.append({"file": f, "variant": "thinatoms", "param": 0.05, "seed": 1})
+            out.append({"file": f, "variant": "baseonly", "param": 0.25, "seed": 1})
+            out.append({"file": f, "variant": "icode", "param": 0.3, "seed": 1})
+            out.append({"file": f, "variant": "splitres", "param": 0.3, "seed": 1})
         out.append({"file": files[2], "variant": "twomodel", "param": 1})
         out.append({"file": files[2], "variant": "twomodel", "param": 2})
         out.append({"file": "2HY9.cif", "read_model": 2, "variant": "orig"})
@@ -420,6 +477,10 @@ def recipes(tier):
                 out.append({"file": f, "variant": "thinres", "param": 0.2, "seed": k})
                 out.append({"file": f, "variant": "thinatoms", "param": 0.05, "seed": k})
             out.append({"file": f, "variant": "thinatoms", "param": 0.2, "seed": 7})
+            for k in range(2):
+                out.append({"file": f, "variant": "baseonly", "param": 0.25, "seed": k})
+                out.append({"file": f, "variant": "icode", "param": 0.3, "seed": k})
+                out.append({"file": f, "variant": "splitres", "param": 0.3, "seed": k})
             for k in range(2):
                 out.append({"file": f, "variant": "shuffle", "seed": k})
             for p in (0.9, 0.93, 0.96):
@@ -529,7 +590,7 @@ def record(recipe, family):
     """One recorded case for the given clause family ("C03" | "C04" | "C11")."""
     K = measurer.constants()
     structure, ann_model = build(recipe)
-    bi, err = annotate(structure, ann_model)
+    bi, err = annotate(code_view(recipe, structure), ann_model)
     M = measurer.measure(structure, K, ann_model)
     P = Projection(structure, ann_model)
     P.mark(M)
